@@ -63,6 +63,11 @@ async def _read_all(stream: bytes, cuts, lazy, max_calls, stats=None):
                 if stats is not None:
                     # bytes sitting in the buffer while the reader still waits for more
                     stats["max_blocked_buffer"] = max(stats.get("max_blocked_buffer", 0), len(sr._buffer))
+                    # bytes that have ARRIVED for this call, counted from its first start delimiter, while it still waits
+                    # (consumed or not: a call that took a frame's worth and waits for more is waiting beyond the frame)
+                    i = stream.find(b"\x68", consumed_before, fed)
+                    if i >= 0 and not eof:
+                        stats["max_blocked_from_delimiter"] = max(stats.get("max_blocked_from_delimiter", 0), fed - i)
                 feed_next()
             guard += 1
             if guard > 100000:
